@@ -112,6 +112,44 @@ class Wide(betterproto.Message):
     big: bytes = betterproto.bytes_field(20)
 
 
+class EA(betterproto.Enum):
+    A0 = 0
+    A1 = 1
+    A2 = 2
+
+
+class EB(betterproto.Enum):
+    B0 = 0
+    B1 = 1
+    B5 = 5
+
+
+@dataclass(eq=False, repr=False)
+class TwinA(betterproto.Message):
+    """TwinA / TwinB have the same field numbers, kinds and Python container types but mean different things: any table
+    shared between message classes (keyed by number, kind, Python type or JSON key) makes one of them wrong"""
+    e: "EA" = betterproto.enum_field(1)
+    r_e: List["EA"] = betterproto.enum_field(2)
+    m_e: Dict[str, "EA"] = betterproto.map_field(3, betterproto.TYPE_STRING, betterproto.TYPE_ENUM)
+    m_t: Dict[str, datetime] = betterproto.map_field(4, betterproto.TYPE_STRING, betterproto.TYPE_MESSAGE)
+    address_line_1: str = betterproto.string_field(5)
+    m_n: Dict[str, int] = betterproto.map_field(6, betterproto.TYPE_STRING, betterproto.TYPE_INT32)
+    sub: "Leaf" = betterproto.message_field(7)
+    x: int = betterproto.int32_field(8)
+
+
+@dataclass(eq=False, repr=False)
+class TwinB(betterproto.Message):
+    e: "EB" = betterproto.enum_field(1)
+    r_e: List["EB"] = betterproto.enum_field(2)
+    m_e: Dict[str, "EB"] = betterproto.map_field(3, betterproto.TYPE_STRING, betterproto.TYPE_ENUM)
+    m_t: Dict[str, timedelta] = betterproto.map_field(4, betterproto.TYPE_STRING, betterproto.TYPE_MESSAGE)
+    address_line1: str = betterproto.string_field(5)
+    m_n: Dict[str, int] = betterproto.map_field(6, betterproto.TYPE_STRING, betterproto.TYPE_SINT32)
+    sub: "Mid" = betterproto.message_field(7)
+    x: int = betterproto.sint32_field(8)
+
+
 @dataclass(eq=False, repr=False)
 class High(betterproto.Message):
     """field numbers whose tags need 2..5 bytes, in every presence discipline"""
@@ -1091,6 +1129,74 @@ def high_numbers(col, prop):
                 col.fail("high-field-number-unknown-bytes-changed", how, f"{b.hex()} -> {bytes(h).hex()}")
 
 
+def twins(col, prop):
+    """two message classes of the same shape used alternately in one process, in both orders of first use (the second
+    order in a child process): every result must be what the class alone gives"""
+    T1, D1 = EPOCH + timedelta(seconds=5400), timedelta(seconds=5400)
+    A = [("TwinA(e=A2, r_e=[A1, A2], m_e={'k': A2})", lambda: TwinA(e=EA.A2, r_e=[EA.A1, EA.A2], m_e={"k": EA.A2})),
+         ("TwinA(e=undefined 5)", lambda: TwinA(e=EA.try_value(5), r_e=[EA.try_value(5)])),
+         ("TwinA(m_t={'t': T1})", lambda: TwinA(m_t={"t": T1})), ("TwinA(address_line_1='x')", lambda: TwinA(address_line_1="x")),
+         ("TwinA(m_n={'n': -3})", lambda: TwinA(m_n={"n": -3})), ("TwinA(sub=Leaf(n=4), x=-3)", lambda: TwinA(sub=Leaf(n=4), x=-3))]
+    B = [("TwinB(e=B5, r_e=[B1, B5], m_e={'k': B5})", lambda: TwinB(e=EB.B5, r_e=[EB.B1, EB.B5], m_e={"k": EB.B5})),
+         ("TwinB(e=undefined 2)", lambda: TwinB(e=EB.try_value(2), r_e=[EB.try_value(2)])),
+         ("TwinB(m_t={'t': D1})", lambda: TwinB(m_t={"t": D1})), ("TwinB(address_line1='y')", lambda: TwinB(address_line1="y")),
+         ("TwinB(m_n={'n': -3})", lambda: TwinB(m_n={"n": -3})), ("TwinB(sub=Mid(name='m'), x=-3)", lambda: TwinB(sub=Mid(name="m"), x=-3))]
+    order = [x for pair in zip(A, B) for x in pair] if os.environ.get("DEEP_TWIN_ORDER", "AB") == "AB" else [x for pair in zip(B, A) for x in pair]
+    enum_of = {TwinA: EA, TwinB: EB}
+    for how, make in order:
+        how = how + f" [first-use order {os.environ.get('DEEP_TWIN_ORDER', 'AB')}]"
+        col.cases += 1
+        col.distinct.add(how)
+        m = make()
+        cls = type(m)
+        b = guard(col, "encode", how, lambda: bytes(m))
+        if b is None:
+            continue
+        back = guard(col, "decode", how, lambda: cls().parse(b))
+        if back is not None:
+            if not same(back, make()):
+                col.fail("twin-class-roundtrip-changes-observable-state", how, f"{view(back)} expected {view(make())}")
+            for v in [back.e] + list(back.r_e) + list(back.m_e.values()):
+                if not isinstance(v, enum_of[cls]):
+                    col.fail("decoded-enum-value-belongs-to-another-enum", how, f"{v!r} is a {type(v).__name__}, the field's enum is {enum_of[cls].__name__}")
+                elif int(v) in [int(x) for x in enum_of[cls]] and not any(v is x for x in enum_of[cls]):
+                    col.fail("decoded-enum-value-is-not-the-canonical-member", how, repr(v))
+            for v in back.m_t.values():
+                if not isinstance(v, datetime if cls is TwinA else timedelta):
+                    col.fail("map-value-decoded-with-the-type-of-another-class", how, repr(v))
+            if guard(col, "len", how, lambda: len(m)) not in (None, len(b)):
+                col.fail("twin-class-len-differs", how, f"{len(m)} vs {len(b)}")
+        if prop in ("C04", "C05", "C19", "C07", "C14"):
+            for cname, casing in (("CAMEL", betterproto.Casing.CAMEL), ("SNAKE", betterproto.Casing.SNAKE)):
+                d = guard(col, "to_dict", how, lambda: m.to_dict(casing=casing))
+                if d is None:
+                    continue
+                j = guard(col, "from_dict", how + f" [{cname}]", lambda: cls().from_dict(json.loads(json.dumps(d))))
+                if j is not None and (bytes(j) != b or not same(j, make())):
+                    col.fail("twin-class-json-roundtrip-changes-the-message", how + f" [{cname}]", f"dict={d} -> {view(j)}")
+                j2 = guard(col, "classmethod-from_dict", how + f" [{cname}]", lambda: cls.from_dict(json.loads(json.dumps(d))))
+                if j2 is not None and bytes(j2) != b:
+                    col.fail("twin-class-json-roundtrip-changes-the-message", how + f" [{cname}] classmethod", f"dict={d} -> {view(j2)}")
+
+
+def twins_both_orders(col, prop):
+    twins(col, prop)
+    if os.environ.get("DEEP_TWIN_ORDER"):
+        return
+    # the other order of first use needs a fresh interpreter (class-level and module-level tables are per process)
+    import subprocess
+    env = dict(os.environ, DEEP_TWIN_ORDER="BA", PYTHONPATH=os.path.dirname(os.path.dirname(os.path.abspath(__file__))))
+    p = subprocess.run([sys.executable, "-m", "standin.deep", prop, "--twins-only"], env=env, capture_output=True, text=True, timeout=600)
+    try:
+        r = json.loads(p.stdout)
+    except Exception:
+        col.fail("harness:twin-child", "child process", (p.stdout + p.stderr)[-400:])
+        return
+    col.cases += r["cases"]
+    for f in r["failures"]:
+        col.fail(f["match"].split(":deep:", 1)[1], f["how"], f["detail"])
+
+
 def rel_C15_ts(col):
     from google.protobuf import timestamp_pb2
     for label, dt in TIMES:
@@ -1126,7 +1232,89 @@ def rel_C15_ts(col):
             col.fail("timestamp-binary-roundtrip-changes-the-instant", how, f"{wire!r}")
 
 
-RELS = {"C01": rel_C01, "C02": rel_C02, "C04": rel_C04, "C06": rel_C06, "C07": rel_C07, "C08": rel_C08, "C09": rel_C09, "C14": rel_C14}
+def stream_kinds(col):
+    """C10 / C16: the same delimited stream read through different kinds of binary streams (BytesIO, BufferedReader with
+    small buffers, a real file): every load returns the message written; load_varint agrees with decode_varint at every
+    offset of a long run of varints"""
+    import tempfile
+    msgs = [Deep(mid=Mid(name="n" * k), r_d=[1.5] * (k % 5)) for k in (0, 1, 5, 120, 130, 300, 2)] + [Deep(), Deep(one=Choice(count=0))] * 3
+    data = io.BytesIO()
+    for m in msgs:
+        m.dump(data, betterproto.SIZE_DELIMITED)
+    raw = data.getvalue()
+    tmp = tempfile.NamedTemporaryFile(prefix="standin_deep_", delete=False)
+    tmp.write(raw)
+    tmp.close()
+    try:
+        kinds = [("BytesIO", lambda: io.BytesIO(raw))] + [(f"BufferedReader(buffer_size={bs})", lambda bs=bs: io.BufferedReader(io.BytesIO(raw), buffer_size=bs)) for bs in (1, 7, 8, 16, 64)]
+        kinds.append(("file", lambda: open(tmp.name, "rb")))
+        for kname, mk in kinds:
+            how = f"{len(msgs)} delimited messages read from {kname}"
+            col.cases += 1
+            col.distinct.add(how)
+            st = mk()
+            try:
+                for i, m in enumerate(msgs):
+                    got = guard(col, "load-delimited", how + f" message {i}", lambda: Deep().load(st, betterproto.SIZE_DELIMITED))
+                    if got is None:
+                        break
+                    if bytes(got) != bytes(m):
+                        col.fail("delimited-message-read-differently-from-this-stream-kind", how + f" message {i}", f"{bytes(got).hex()[:80]} expected {bytes(m).hex()[:80]}")
+                        break
+            finally:
+                st.close()
+        vals = [0, 1, 127, 128, 300, 16383, 16384, 2**21, 2**35, 2**63, 2**64 - 1] * 120
+        enc = b"".join(bytes(betterproto.encode_varint(v)) for v in vals)
+        with open(tmp.name, "wb") as fh:
+            fh.write(enc)
+        for kname, mk in [("BytesIO", lambda: io.BytesIO(enc)), ("BufferedReader(16)", lambda: io.BufferedReader(io.BytesIO(enc), buffer_size=16)),
+                          ("BufferedReader(4096)", lambda: io.BufferedReader(io.BytesIO(enc), buffer_size=4096)), ("file", lambda: open(tmp.name, "rb"))]:
+            how = f"{len(vals)} varints read from {kname}"
+            col.cases += 1
+            col.distinct.add(how)
+            st = mk()
+            try:
+                for i, v in enumerate(vals):
+                    r = guard(col, "load_varint", how + f" #{i}", lambda: betterproto.load_varint(st))
+                    if r is None:
+                        break
+                    if r[0] != v or bytes(r[1]) != bytes(betterproto.encode_varint(v)):
+                        col.fail("varint-read-differently-from-this-stream-kind", how + f" #{i}", f"{r!r} expected {v}")
+                        break
+            finally:
+                st.close()
+    finally:
+        os.unlink(tmp.name)
+
+
+def shared_state_after_copy(col):
+    """C08 / C14: a copy shares nothing mutable with its original - decoding more data into one of them (unknown fields
+    included) leaves the other one exactly as it was"""
+    srcs = [("Deep().parse(unknown 30)", lambda: Deep().parse(bytes.fromhex("f00107"))), ("Deep(mid=Mid(name='a'))", lambda: Deep(mid=Mid(name="a"))),
+            ("Deep()", lambda: Deep()), ("Deep(r_d=[1.5], m_d={'k': 2.5})", lambda: Deep(r_d=[1.5], m_d={"k": 2.5}))]
+    more = [("unknown bytes 31", bytes.fromhex("fa01026869")), ("r_d += [2.5]", bytes.fromhex("52080000000000000440")), ("m_d['z']=1.0", bytes.fromhex("2a0c0a017a11000000000000f03f"))]
+    for sname, src in srcs:
+        for cname, cp in (("copy", copy.copy), ("deepcopy", copy.deepcopy), ("pickle", lambda x: pickle.loads(pickle.dumps(x)))):
+            for mname, mb in more:
+                for into_copy in (True, False):
+                    if cname == "copy" and "unknown" not in mname:
+                        continue        # a shallow copy shares its containers by definition
+                    how = f"a = {sname}; b = {cname}(a); {'b' if into_copy else 'a'}.parse({mname})"
+                    col.cases += 1
+                    col.distinct.add(how)
+                    a = src()
+                    b = guard(col, cname, how, lambda: cp(a))
+                    if b is None:
+                        continue
+                    tgt, other = (b, a) if into_copy else (a, b)
+                    before = bytes(other)
+                    if guard(col, "parse", how, lambda: (tgt.parse(mb), True)[1]) is None:
+                        continue
+                    if bytes(other) != before:
+                        col.fail("decoding-into-one-object-changes-its-copy", how, f"{before.hex()} -> {bytes(other).hex()}")
+
+
+RELS = {"C01": rel_C01, "C02": rel_C02, "C04": rel_C04, "C06": rel_C06, "C07": rel_C07, "C08": rel_C08, "C09": rel_C09, "C10": rel_C09, "C14": rel_C14}
 
 
 def main(argv=None):
@@ -1134,9 +1322,16 @@ def main(argv=None):
     ap.add_argument("prop")
     ap.add_argument("--seed", type=int, default=0)
     ap.add_argument("--n", type=int, default=150)
+    ap.add_argument("--twins-only", action="store_true")
     a = ap.parse_args(argv)
     rnd = random.Random(a.seed * 7919 + 13)
     col = Col(a.prop)
+    if a.twins_only:
+        twins(col, a.prop)
+        json.dump({"property": a.prop, "cases": col.cases, "failures": col.fails}, sys.stdout, default=str)
+        return 0
+    if a.prop in ("C01", "C02", "C04", "C05", "C07", "C09", "C14", "C17", "C19", "C20"):
+        twins_both_orders(col, a.prop)
     if a.prop == "C15":
         rel_C15(col, rnd)
         rel_C15_ts(col)
@@ -1174,6 +1369,10 @@ def main(argv=None):
             copy_histories(col)
         if a.prop == "C14":
             eq_histories(col)
+        if a.prop in ("C08", "C14"):
+            shared_state_after_copy(col)
+        if a.prop in ("C10", "C16"):
+            stream_kinds(col)
         if a.prop in ("C01", "C02", "C08", "C09", "C10", "C17"):
             high_numbers(col, a.prop)
     if not col.samples:
